@@ -2,6 +2,7 @@
     (Known class not covered: a stream that ends cleanly between messages is dropped by the fair
     queue without telling the backend - KNOWN_FINDINGS clean-eof-keeps-write-half.) *)
 From ZV Require Import Base.Bytes Base.Res Model.Codec Model.World Proofs.SocketProofs Proofs.LifecycleProofs.
+From ZV Require Proofs.WorldStreamDefs Proofs.WorldStream Proofs.WorldErrors.
 
 (** structure re-read from the source on every run: every path on which a socket sees a connection
     fail removes the peer (table entry, stream) *)
@@ -63,3 +64,54 @@ Theorem C16_not_routed_router : forall w c m, w_type w = ROUTER -> memN c (w_pee
   step w (OSendTo c m) = ([BSendErr EOther None], w).
 Proof. exact router_route_unknown. Qed.
 Print Assumptions C16_not_routed_router.
+
+(** over whole histories of the socket model (six fair-queue socket types, any number of connections, any
+    interleaving of arrivals in any chunking, closes and recv calls).  At most one error is handed out for a
+    connection, and nothing after it ... *)
+Theorem C16_history_error_once : forall t cs es k pre o post,
+  has_fq t = true -> NoDup cs -> In k cs ->
+  WorldStreamDefs.outs_of k (fst (WorldStreamDefs.wrun (WorldStreamDefs.attached t cs) es)) = pre ++ o :: post ->
+  WorldErrors.is_err o = true ->
+  post = [] /\ forallb (fun x => negb (WorldErrors.is_err x)) pre = true.
+Proof. exact WorldErrors.world_error_once. Qed.
+Print Assumptions C16_history_error_once.
+
+(** ... once it has been handed out the connection is forgotten and released: not a peer, not a registered
+    stream, both halves dropped ... *)
+Theorem C16_history_forgotten_and_released : forall t cs es k rs w,
+  has_fq t = true -> NoDup cs -> In k cs ->
+  WorldStreamDefs.wrun (WorldStreamDefs.attached t cs) es = (rs, w) ->
+  existsb WorldErrors.is_err (WorldStreamDefs.outs_of k rs) = true ->
+  memN k (w_peers w) = false /\ memN k (w_streams w) = false /\
+  (forall c, get_conn k (w_conns w) = Some c -> c_rd c = false /\ c_wr c = false).
+Proof. exact WorldErrors.world_error_forgets. Qed.
+Print Assumptions C16_history_forgotten_and_released.
+
+(** ... while every connection that has not failed and was not closed stays a registered peer with both halves,
+    whatever happened to the others ... *)
+Theorem C16_history_healthy_kept : forall t cs es k rs w,
+  has_fq t = true -> NoDup cs -> In k cs ->
+  WorldStreamDefs.wrun (WorldStreamDefs.attached t cs) es = (rs, w) ->
+  existsb WorldErrors.is_err (WorldStreamDefs.outs_of k rs) = false -> WorldStreamDefs.closed_of k es = false ->
+  memN k (w_peers w) = true /\ memN k (w_streams w) = true /\
+  (exists c, get_conn k (w_conns w) = Some c /\ c_rd c = true /\ c_wr c = true).
+Proof. exact WorldErrors.world_healthy_kept. Qed.
+Print Assumptions C16_history_healthy_kept.
+
+(** ... and its traffic is delivered completely (no hypothesis about the other connections: they may fail at any point) *)
+Theorem C16_history_others_unaffected : forall t cs es rs w,
+  has_fq t = true -> NoDup cs ->
+  WorldStreamDefs.wrun (WorldStreamDefs.attached t cs) (es ++ [WorldStreamDefs.WNext]) = (rs, w) -> last rs None = None ->
+  forall k, In k cs -> WorldStreamDefs.outs_of k rs = WorldStreamDefs.expected (WorldStreamDefs.chunks_of k es) (WorldStreamDefs.closed_of k es).
+Proof. exact WorldStream.world_stream_complete. Qed.
+Print Assumptions C16_history_others_unaffected.
+
+(** the listed finding, as the model shows it: a peer that closes while nothing is buffered ends its stream
+    silently - the read half goes, the peer-table entry and the write half stay *)
+Theorem C16_clean_close_keeps_peer_refuted :
+  WorldStreamDefs.outs_of 0 (fst (WorldStreamDefs.wrun (WorldStreamDefs.attached PULL [0]) WorldErrors.we_clean)) = [OItem (IMessage [[9]])] /\
+  memN 0 (w_peers (snd (WorldStreamDefs.wrun (WorldStreamDefs.attached PULL [0]) WorldErrors.we_clean))) = true /\
+  memN 0 (w_streams (snd (WorldStreamDefs.wrun (WorldStreamDefs.attached PULL [0]) WorldErrors.we_clean))) = false /\
+  map (fun c => (c_rd c, c_wr c)) (w_conns (snd (WorldStreamDefs.wrun (WorldStreamDefs.attached PULL [0]) WorldErrors.we_clean))) = [(false, true)].
+Proof. exact WorldErrors.world_clean_close_keeps_peer. Qed.
+Print Assumptions C16_clean_close_keeps_peer_refuted.
